@@ -802,6 +802,9 @@ def apply_edit(doc, op, model: EditModel, tmpdir):
     elif o == "del_part_binary":
         state = memory_state(doc)
         cands = sorted(p for p in state if not p.endswith("/") and not is_xml_name(p) and p != "mimetype")
+        brought = sorted(p for p in getattr(model, "merged_parts", ()) if p in cands)
+        if brought and k % 2:
+            cands = brought  # aim at a picture a merge brought in
         if not cands:
             return "skipped"
         path = cands[k % len(cands)]
@@ -828,9 +831,18 @@ def apply_edit(doc, op, model: EditModel, tmpdir):
         if "content.xml" in model.frozen or "styles.xml" in model.frozen:
             return "skipped"
         other = ["background.odp", "example.odp", "lpod_styles.odt", "example.odt", "styled_table.ods"][k % 5]
+        if getattr(model, "last_merge", None) and k % 3:
+            other = model.last_merge  # the same source again (its pictures may have been deleted in between)
         from odfdo import Document
 
+        before = set(memory_state(doc))
         doc.merge_styles_from(Document(os.path.join(SAMPLES, other)))
+        after = set(memory_state(doc))
+        model.last_merge = other
+        model.merged_parts = getattr(model, "merged_parts", set()) | {p for p in after - before if not is_xml_name(p) and not p.endswith("/")}
+        # a merge brings the source's pictures (back): they are part of the document again
+        src_pics = {p for p in memory_state(Document(os.path.join(SAMPLES, other))) if p.startswith("Pictures/")}
+        model.deleted -= {p for p in after if p in src_pics}
         return "merge_styles:" + other.rsplit(".", 1)[-1]
     else:
         raise KeyError(o)
@@ -848,14 +860,18 @@ def expected_state(doc, model: EditModel):
     return st
 
 
-def save_doc(doc, how, tmpdir, pretty=False, tag=""):
-    """how ∈ {"zip-path","zip-io","folder","xml-io"} -> (artefact, Package or bytes)"""
+def save_doc(doc, how, tmpdir, pretty=False, tag="", reuse=None):
+    """how ∈ {"zip-path","zip-io","folder","xml-io"} -> (artefact, Package or bytes).
+    reuse: a dict kept by the caller; when given, successive zip / folder saves go to the very same
+    target (same path, same BytesIO object left as the previous save left it)."""
+    if reuse is not None:
+        tag = "R"
     if how == "zip-path":
         path = os.path.join(tmpdir, f"out{tag}.odx")
         doc.save(path, pretty=pretty)
         return path, Package(path)
     if how == "zip-io":
-        buf = io.BytesIO()
+        buf = io.BytesIO() if reuse is None else reuse.setdefault("buf", io.BytesIO())
         doc.save(buf, pretty=pretty)
         return buf.getvalue(), Package(buf.getvalue())
     if how == "folder":
